@@ -207,6 +207,62 @@ func (v *Verifier) PackageObligations() []*PkgObligation {
 		Detail: strings.Join(gw, "; "), Desc: "no Store/MapUpdate in any function of the package targets a package-level variable or a value loaded from one (outside init)"})
 	out = append(out, &PkgObligation{Name: "pkg#no-concurrency-primitives", Props: []string{"C09"}, Holds: len(unsupported) == 0,
 		Detail: strings.Join(unsupported, "; "), Desc: "no go statement, channel operation or select in the package"})
+	// C04/C08: who writes File.imports, who calls register
+	var writers, callers []string
+	for _, f := range v.eff.all {
+		for _, b := range f.Blocks {
+			for _, in := range b.Instrs {
+				switch x := in.(type) {
+				case *ssa.MapUpdate:
+					if ld, ok := x.Map.(*ssa.UnOp); ok {
+						if fa, ok := ld.X.(*ssa.FieldAddr); ok {
+							st := fa.X.Type().Underlying().(*types.Pointer).Elem()
+							if su, ok := st.Underlying().(*types.Struct); ok && v.enc.structName(st) == "File" && su.Field(fa.Field).Name() == "imports" {
+								writers = append(writers, fnDisplay(f))
+							}
+						}
+					}
+				case *ssa.Store:
+					if fa, ok := x.Addr.(*ssa.FieldAddr); ok {
+						st := fa.X.Type().Underlying().(*types.Pointer).Elem()
+						if su, ok := st.Underlying().(*types.Struct); ok && v.enc.structName(st) == "File" && su.Field(fa.Field).Name() == "imports" {
+							if _, fresh := rootOf(x.Addr).(*ssa.Alloc); !fresh {
+								writers = append(writers, fnDisplay(f)+" (field assignment)")
+							}
+						}
+					}
+				case ssa.CallInstruction:
+					if callee, ok := x.Common().Value.(*ssa.Function); ok && fnDisplay(callee) == "File.register" {
+						callers = append(callers, fnDisplay(f))
+					}
+				}
+			}
+		}
+	}
+	uniqStr := func(xs []string) []string {
+		m := map[string]bool{}
+		for _, x := range xs {
+			m[x] = true
+		}
+		return sortedKeys(m)
+	}
+	writers, callers = uniqStr(writers), uniqStr(callers)
+	okW := true
+	for _, w := range writers {
+		if w != "File.register" && w != "File.Anon" {
+			okW = false
+		}
+	}
+	out = append(out, &PkgObligation{Name: "pkg#imports-writers", Props: []string{"C04", "C08"}, Holds: okW,
+		Detail: strings.Join(writers, ", "), Desc: "File.imports is updated only by register and Anon (and initialised by the constructors); found: " + strings.Join(writers, ", ")})
+	okC := true
+	for _, c := range callers {
+		if c != "token.render" && c != "Group.renderItems" {
+			okC = false
+		}
+	}
+	out = append(out, &PkgObligation{Name: "pkg#register-callers", Props: []string{"C04", "C08"}, Holds: okC,
+		Detail: strings.Join(callers, ", "), Desc: "register is called only while rendering a package token (token.render, Group.renderItems); found: " + strings.Join(callers, ", ")})
 	// globals of the package and who references them
 	var globals []string
 	for _, m := range v.enc.pkg.Members {
